@@ -15,6 +15,72 @@ Definition count_info (doc : bytes) (i : nat) : N :=
   | None => 0
   end.
 
+(* (raw key text, value span) entries of a dictionary span: the scanner compares the key as spelled ("4:info"; a key
+   written "04:info" is not recognised) *)
+Fixpoint entries_raw (fuel : nat) (s : bytes) : option (list (bytes * bytes)) :=
+  match fuel with
+  | O => None
+  | S f =>
+    match s with
+    | [] => None
+    | c :: r =>
+      if c =? ch_e then Some []
+      else match skip_value (S (length s)) s with
+           | Some (k, rest) =>
+               match skip_value (S (length rest)) rest with
+               | Some (v, rest') => match entries_raw f rest' with Some l => Some ((k, v) :: l) | None => None end
+               | None => None
+               end
+           | None => None
+           end
+    end
+  end.
+Definition dict_entries_raw (span : bytes) : option (list (bytes * bytes)) :=
+  match span with
+  | b :: body => if b =? ch_d then entries_raw (S (length body)) body else None
+  | [] => None
+  end.
+
+(* what a depth-first search for the key "info" finds (dictionaries only, entries in document order, a matching
+   entry's value is returned unsearched): written with InfoSpec's span splitter, independent of DeepFinder *)
+Fixpoint deep_first (fuel : nat) (span : bytes) : option bytes :=
+  match fuel with
+  | O => None
+  | S f =>
+      match dict_entries_raw span with
+      | Some es =>
+          (fix go (es : list (bytes * bytes)) : option bytes :=
+             match es with
+             | [] => None
+             | (k, v) :: r => if bytes_eqb k key_info_raw then Some v
+                              else match deep_first f v with Some x => Some x | None => go r end
+             end) es
+      | None => None
+      end
+  end.
+(* at the top level the scanner walks into lists as if their items were top-level values *)
+Fixpoint top_search (fuel : nat) (span : bytes) : option bytes :=
+  match fuel with
+  | O => None
+  | S f =>
+      match span with
+      | b :: body =>
+          if b =? ch_d then deep_first (S (length span)) span
+          else if b =? ch_l then
+            match top_spans (S (length body)) (removelast body) with
+            | Some items => fold_left (fun acc sp => match acc with Some x => Some x | None => top_search f sp end) items None
+            | None => None
+            end
+          else None
+      | [] => None
+      end
+  end.
+Definition deep_first_doc (doc : bytes) : option bytes :=
+  match top_spans (S (length doc)) doc with
+  | Some spans => fold_left (fun acc sp => match acc with Some x => Some x | None => top_search (S (length doc)) sp end) spans None
+  | None => None
+  end.
+
 Definition code (c : case) : N :=
   match c with
   | CMeta ovf doc impl =>
@@ -28,7 +94,10 @@ Definition code (c : case) : N :=
             | Some i =>
                 match info_span doc i with
                 | Some sp => if opt_eqb bytes_eqb (o_ff ob) (Some sp) && o_hash_is_sha1_of_ff ob then (true, 0)
-                             else (false, if 1 <? count_info doc i then 2 else 1)
+                             else if o_hash_is_sha1_of_ff ob && opt_eqb bytes_eqb (o_ff ob) (deep_first_doc doc)
+                             then (* the two known findings: the depth-first search met another `info` first *)
+                                  (false, if 1 <? count_info doc i then 2 else 1)
+                             else (false, 0)        (* anything else is a new violation *)
                 | None => (false, 4)
                 end
             end
